@@ -49,6 +49,15 @@ func applyReservedStreamOverrides(s *stream, config *Config) {
 		s.config.AutoPauseTime = &proto.NullableInt64{
 			Value: config.CursorsStream.AutoPauseTime.Milliseconds(),
 		}
+		// The cursors stream is compacted by key such that only the most
+		// recent version of each cursor is retained. It must not inherit the
+		// retention limits configured for regular streams since these delete
+		// whole segments, including ones holding the latest version of a
+		// cursor that hasn't been updated recently. A value of 0 disables the
+		// respective limit.
+		s.config.RetentionMaxAge = &proto.NullableInt64{Value: 0}
+		s.config.RetentionMaxBytes = &proto.NullableInt64{Value: 0}
+		s.config.RetentionMaxMessages = &proto.NullableInt64{Value: 0}
 	}
 }
 
